@@ -690,6 +690,20 @@ fn c06(tier: &str, _seed: u64) -> Value {
                 derived.push((format!("({} \\ {})", pool[i].0, pool[j].0), c));
             }
         }
+        // unions and intersections as operands (both operand orders): the result of one operation is the input of the next
+        for j in 0..n.min(24) {
+            if i == j {
+                continue;
+            }
+            if let Ok(c) = pool[i].1.union(&pool[j].1) {
+                derived.push((format!("({} | {})", pool[i].0, pool[j].0), c));
+            }
+            if j < 12 {
+                if let Ok(c) = pool[i].1.intersect(&pool[j].1) {
+                    derived.push((format!("({} & {})", pool[i].0, pool[j].0), c));
+                }
+            }
+        }
     }
     pool.extend(derived);
     let w = sem_universe();
